@@ -17,7 +17,7 @@ Entry == {[purpose |-> p, kind |-> k, lang |-> l, script |-> s, datum |-> d] :
 Sensible(r) == /\ (r.purpose # "spend" => r.datum = "none")
                /\ (r.script = "missing" => r.kind = "cheap")
                /\ (r.datum = "missing" => r.kind = "cheap" /\ r.script = "witness")
-               /\ (r.script = "reference" => r.kind \in {"cheap", "picky"})
+               /\ (r.script \in {"reference", "inputref"} => r.kind \in {"cheap", "picky"})
 Entries == {r \in Entry : Sensible(r)}
 BudgetKinds == {"ample", "exact", "short_cpu", "short_mem", "first"}
 
